@@ -39,6 +39,8 @@ def run (op : String) (args impl : List String) : Outcome :=
       | [s, g, wf, _, del, bind] =>
         if wf != "1" then specFail "[C16] the answer is not a well-formed HTTP response"
         else if del != "-" ∧ s != "HTTP/1.1_200_OK" then specFail "[C16] actions were delivered although the request was rejected"
+        else if del != "-" ∧ !(match r with | .post _ => true | _ => false) then
+          specFail "[C16] actions were delivered for a malformed, incomplete or unauthorised request"
         else if !k.isEmpty ∧ (del != "-" ∨ g == "1") ∧ !(match r with | .unauthorized => false | _ => true) then
           specFail "[C16] an action was accepted or state revealed without the exact API key"
         else if g == "1" ∧ del != "-" then specFail "[C16] GET changed state"
